@@ -1,10 +1,38 @@
-(* InputLink.v — (worker s2) proof machinery for the screen layer / input path.
+(* InputLink.v — (worker s2) the screen layer / input path of ScreenSem.v against the acceptors of ScreenMon.v:
+   the link between the model's state and the world the observer rebuilds from the events, and ONE proof that
+   every session of the model is accepted by chk_C17sep, chk_C07, chk_C18, chk_C06 and chk_once (no input handler
+   gets a second ready signal) together ([all_accepted]).
+   proofs/C17sepProofs.v, C07Proofs.v, C18Proofs.v, C06Proofs.v project it on the single properties.
+
    Part 1 (generic in the handlers' state U and the handler table [code]):
      [wpS n p Q s]  "running the handler program p from s with any fuel <= n ends in Q" (semantic weakest
-     precondition), with proof rules for every constructor of [prog]; the recursive API calls are
-     discharged by [Spec n], the specification of the loop-level calls for fuel <= n;
-     [spec_all]: ONE induction on fuel over [exec]: if the invariant [Inv] is kept by the loop's own
-     steps and every handler body satisfies its triple (given [Spec n]), then [Spec n] holds for all n. *)
+     precondition), with proof rules for every constructor of [prog] ([wpS_seq], [wpS_try], [wpS_st], [wpS_while],
+     [wpS_emit], [wpS_api_exact] for API calls that do not re-enter the loop); the API calls that do
+     (execute_new_loop, close_loop, process_signals) are discharged by [Spec n], the specification of the
+     loop-level calls for fuel <= n ([wpS_api_rec]);
+     [spec_all]: ONE induction on fuel over [exec]: if the invariant [Inv] is kept by the loop's own steps
+     (hypotheses G_pop, G_ext, ...) and every handler body satisfies its triple given [Spec n] (G_handler), then [Spec n]
+     holds for all n.  Outcomes: OFuel / OBlocked leave only [A] (the trace so far is accepted), SystemExit
+     leaves [D] (accepted, and the unwinding will be), every other outcome re-establishes [Inv].
+   Part 2 (the screen layer):
+     [SW typed s] the observer's world; [mw]/[absw]/[mstep]/[mchk_all]: the part of the world the four acceptors
+     read, its transformer and the acceptors on it ([abs_step], [chk07_abs] ...: they commute with ScreenMon's);
+     [Core m u l ex hs]: the link (ideal stack = concrete stack; outstanding requests, reader running, typed lines;
+     error counters; request table / fired callbacks vs. the handlers' one-shot callbacks; the pending
+     InputReadySignals of all queues are announcements of the hand-off list, pairwise distinct; at most one
+     InputReceivedSignal in flight, carrying the line the reader took; the handler table);
+     [Inv] = accepted so far + Core + "quiet" (no follow-up pending, no line waiting for its input());
+     [At s m u l ex hs]: symbolic state; rules a_rd, a_wr, a_ev, a_enq, ... on it; "Inv-triples" [IT p];
+     one lemma per Python method (same names as in ScreenSem.v): IT_push, IT_replace, IT_schedule, IT_push_modal,
+     t_handler_get_input (start_input_thread), t_get_input_rest / IT_get_input, IT_get_input_blocking,
+     IT_close_screen, IT_draw_screen (C17), IT_process_screen, t_pir (process_input_result: C07),
+     t_process_input, H_ready (input_ready_handler: C06), H_received (the hand-off: C18);
+     G_pop ... G_handler: the hypotheses of [spec_all]; [screen_spec_all]; [session_acc].
+   Part 3: [Inv_init], [all_accepted].
+   Hypothesis of the end result: [wf_session_gen strict fargs specl quit acts] - every screen id used by the
+   session is one of its screens (out of range, upd_scr is a no-op and the model's counters freeze), and, when
+   [strict], every screen is always scheduled with the arguments [fargs screen] (needed for the arguments
+   clause of chk_C06 only: finding F15). *)
 From SL Require Import Tac.
 From RecordUpdate Require Import RecordUpdate.
 From SL Require Import PyInt LoopSem.
@@ -707,8 +735,22 @@ Proof. reflexivity. Qed.
 Lemma chk17_abs ns w e : chk_C17sep ns w e = mchk17 ns (absw w) e.
 Proof. reflexivity. Qed.
 
+(* an additional acceptor: no input handler gets a second ready signal (every requester is answered at most once) *)
+Definition chk_once (w : sworld) (e : event) : bool :=
+  match e with
+  | EUser tag a _ => if (tag =? T_READY)%nat then negb (mem (nth0 a 0) (sw_received w)) else true
+  | _ => true
+  end.
+Definition mchk_once (m : mw) (e : event) : bool :=
+  match e with
+  | EUser tag a _ => if (tag =? T_READY)%nat then negb (mem (nth0 a 0) (m_recv m)) else true
+  | _ => true
+  end.
+Lemma chk_once_abs w e : chk_once w e = mchk_once (absw w) e.
+Proof. reflexivity. Qed.
+
 Definition mchk_all (strict : bool) (quit : option nat) (nosep : list bool) (m : mw) (e : event) : bool :=
-  mchk17 nosep m e && mchk07 quit m e && mchk18 m e && mchk06 strict m e.
+  mchk17 nosep m e && mchk07 quit m e && mchk18 m e && mchk06 strict m e && mchk_once m e.
 Definition chk_all (strict : bool) quit nosep (w : sworld) (e : event) : bool := mchk_all strict quit nosep (absw w) e.
 
 (* ---------------------------------------------------------------- lists, queues, pending signals *)
@@ -1096,6 +1138,8 @@ Section Scr.
     c_owner : forall n, ih_cb (ih_of u n) = true ->
        ih_owner (ih_of u n) < N /\ sc_prompt_none (specs (ih_owner (ih_of u n))) = false;
     c_recv : forall n, ih_received (ih_of u n) = true -> mem n (m_recv m) = true;
+    c_recv_fresh : forall n, mem n (m_recv m) = true ->
+       n < length (st_ih u) /\ ~ In n (st_istack u) /\ ~ In n (map hid_of (m_hand m));
     c_sep : forall pa, m_prev m = Some (T_SEPARATOR, pa) -> sc_no_separator (specs (nth0 pa 0)) = false;
     c_quit : st_quit u = quit;
     c_nscr : length (st_scr u) = N;
@@ -1343,7 +1387,7 @@ Section Scr.
     destruct m as [mstk mreq mty mln mist mpr mhd mrc mfi mmu mer mfo mpv];
     destruct HQt as [HQf HQm]; cbn in HQf, HQm; subst mmu;
     pose proof HC as HC0;
-    destruct HC0 as [c_stack0 c_istack0 c_proc0 c_typed0 c_err0 c_cb_req0 c_cb_no0 c_req_lt0 c_owner0 c_recv0 c_sep0 c_quit0
+    destruct HC0 as [c_stack0 c_istack0 c_proc0 c_typed0 c_err0 c_cb_req0 c_cb_no0 c_req_lt0 c_owner0 c_recv0 c_recv_fresh0 c_sep0 c_quit0
                     c_nscr0 c_stk_wf0 c_args0 c_hs0 c_p_ready0 c_p_nodup0 c_p_recv0 c_e_recv0 c_fl_cnt0 c_fl_proc0
                     c_hand_nd0 c_hand_lt0 c_ist_nd0 c_ist_lt0];
     cbn [m_stack m_req m_typed m_line m_istack m_proc m_hand m_recv m_fired m_must m_err m_follow m_prev] in *; unfold merr_of, ih_of, scr_of in *; cbn [m_err] in *.
@@ -1542,11 +1586,13 @@ Section Scr.
   (* InputHandler.get_input of a handler that is not outstanding *)
   Lemma t_handler_get_input k skip nf Q s :
     SP nf -> Inv s -> k < length (st_ih (ust s)) -> ~ In k (st_istack (ust s)) ->
-    ~ In k (map hid_of (m_hand (MWs s))) ->
+    ~ In k (map hid_of (m_hand (MWs s))) -> mem k (m_recv (MWs s)) = false ->
     (forall o s', Inv s' -> Q o s') -> W nf (handler_get_input k skip) Q s.
   Proof.
-    intros HS HI KL KI KH HQ. open_inv HI.
-    rewrite (at_u _ _ _ _ _ _ HAt) in KL, KI. rewrite (at_m _ _ _ _ _ _ HAt) in KH. cbn [m_hand] in KH.
+    intros HS HI KL KI KH KR HQ. open_inv HI.
+    rewrite (at_u _ _ _ _ _ _ HAt) in KL, KI. rewrite (at_m _ _ _ _ _ _ HAt) in KH, KR. cbn [m_hand m_recv] in KH, KR.
+    assert (RF : forall j, mem j mrc = true -> j < length (st_ih u) /\ ~ In j (k :: st_istack u) /\ ~ In j (map hid_of mhd)).
+    { intros j M. destruct (c_recv_fresh0 j M) as (A & B & C). split; [exact A|split; [|exact C]]. intros [E|I]; [subst j; congruence|auto]. }
     unfold handler_get_input, start_input_thread.
     steps HAt HQf. cbn [st_istack set upd_ih] in *.
     destruct (negb (length (k :: st_istack u) =? 1)%nat && negb skip) eqn:CND.
@@ -1618,7 +1664,7 @@ Section Scr.
 
   Ltac core_open HC :=
     let HC0 := fresh "HC0" in pose proof HC as HC0;
-    destruct HC0 as [c_stack0 c_istack0 c_proc0 c_typed0 c_err0 c_cb_req0 c_cb_no0 c_req_lt0 c_owner0 c_recv0 c_sep0 c_quit0
+    destruct HC0 as [c_stack0 c_istack0 c_proc0 c_typed0 c_err0 c_cb_req0 c_cb_no0 c_req_lt0 c_owner0 c_recv0 c_recv_fresh0 c_sep0 c_quit0
                     c_nscr0 c_stk_wf0 c_args0 c_hs0 c_p_ready0 c_p_nodup0 c_p_recv0 c_e_recv0 c_fl_cnt0 c_fl_proc0
                     c_hand_nd0 c_hand_lt0 c_ist_nd0 c_ist_lt0];
     cbn [m_stack m_req m_typed m_line m_istack m_proc m_hand m_recv m_fired m_must m_err m_follow m_prev] in *;
@@ -1641,7 +1687,7 @@ Section Scr.
   Proof.
     intros HS HAt HC HQf PN SL SA HQ. core_open HC. unfold new_input_handler.
     steps HAt HQf.
-    apply t_handler_get_input; [exact HS| | | | |exact HQ].
+    apply t_handler_get_input; [exact HS| | | | | |exact HQ].
     - eapply At_Inv; [exact HAt| |quiet_auto HQf].
       core_auto.
       + intros j L1 L2. rewrite nth_upd_nth. destruct ((j =? scr)%nat && (scr <? length (st_scr u))%nat); cbn; auto.
@@ -1658,6 +1704,7 @@ Section Scr.
         destruct (j =? length (st_ih u))%nat eqn:E; [|cbn; discriminate]. cbn. auto.
       + intros j. rewrite nth_snoc. destruct (j <? length (st_ih u))%nat eqn:L; [auto|].
         destruct (j =? length (st_ih u))%nat eqn:E; cbn; discriminate.
+      + intros j M. destruct (c_recv_fresh0 j M) as (A & B & C). rewrite app_length. split; [lia|split; assumption].
       + rewrite upd_nth_length. exact c_nscr0.
       + intros ST j scr' args'. destruct (j =? length (st_ih u))%nat eqn:E.
         * intros X. inversion X; subst scr' args'. split; [auto|]. rewrite nth_upd_nth. rewrite Nat.eqb_refl.
@@ -1672,6 +1719,8 @@ Section Scr.
     - rewrite (at_u _ _ _ _ _ _ HAt). cbn. intros I. specialize (c_ist_lt0 _ I). lia.
     - rewrite (at_m _ _ _ _ _ _ HAt). cbn. intros I. apply in_map_iff in I. destruct I as (x & E & I).
       destruct (c_hand_lt0 x I). lia.
+    - rewrite (at_m _ _ _ _ _ _ HAt). cbn. destruct (existsb (Nat.eqb (length (st_ih u))) mrc) eqn:M; [|reflexivity].
+      destruct (c_recv_fresh0 _ M) as (A & _). lia.
   Qed.
 
 
@@ -1713,7 +1762,7 @@ Section Scr.
   Proof.
     intros n Q s HS HI HQ. open_inv HI. unfold get_input_blocking, new_input_handler.
     steps HAt HQf.
-    apply t_handler_get_input; [exact HS| | | | |].
+    apply t_handler_get_input; [exact HS| | | | | |].
     - eapply At_Inv; [exact HAt| |quiet_auto HQf].
       core_auto.
       + intros j. rewrite nth_snoc. destruct (j <? length (st_ih u))%nat eqn:L; [auto|].
@@ -1725,6 +1774,7 @@ Section Scr.
         destruct (j =? length (st_ih u))%nat eqn:E; cbn; discriminate.
       + intros j. rewrite nth_snoc. destruct (j <? length (st_ih u))%nat eqn:L; [auto|].
         destruct (j =? length (st_ih u))%nat eqn:E; cbn; discriminate.
+      + intros j M. destruct (c_recv_fresh0 j M) as (A & B & C). rewrite app_length. split; [lia|split; assumption].
       + rewrite c_hs0, app_length. cbn [length]. rewrite Nat.add_1_r. apply htable_add.
       + intros x I. destruct (c_hand_lt0 x I). rewrite app_length. split; [lia|auto].
       + intros j I. rewrite app_length. specialize (c_ist_lt0 j I). lia.
@@ -1732,6 +1782,8 @@ Section Scr.
     - rewrite (at_u _ _ _ _ _ _ HAt). cbn. intros I. specialize (c_ist_lt0 _ I). lia.
     - rewrite (at_m _ _ _ _ _ _ HAt). cbn. intros I. apply in_map_iff in I. destruct I as (x & E & I).
       destruct (c_hand_lt0 x I). lia.
+    - rewrite (at_m _ _ _ _ _ _ HAt). cbn. destruct (existsb (Nat.eqb (length (st_ih u))) mrc) eqn:M; [|reflexivity].
+      destruct (c_recv_fresh0 _ M) as (A & _). lia.
     - set (k0 := length (st_ih u)) in *. clearbody k0.
       intros o s' HI'. destruct o; try (apply HQ; exact HI').
       apply wpS_seq.
@@ -1772,7 +1824,7 @@ Section Scr.
       destruct HQt' as [HQf' HQm']. cbn in HQf', HQm', KP. subst mmu'.
       step HAt'; [chk_side HQf'|].
       eapply HQn; [exact HAt'| |reflexivity|].
-      + clear HC c_stack0 c_istack0 c_proc0 c_typed0 c_err0 c_cb_req0 c_cb_no0 c_req_lt0 c_owner0 c_recv0 c_sep0 c_quit0
+      + clear HC c_stack0 c_istack0 c_proc0 c_typed0 c_err0 c_cb_req0 c_cb_no0 c_req_lt0 c_owner0 c_recv0 c_recv_fresh0 c_sep0 c_quit0
                     c_nscr0 c_stk_wf0 c_args0 c_hs0 c_p_ready0 c_p_nodup0 c_p_recv0 c_e_recv0 c_fl_cnt0 c_fl_proc0
                     c_hand_nd0 c_hand_lt0 c_ist_nd0 c_ist_lt0. core_open HC'. core_auto.
       + cbn [m_follow]. destruct KP as [->|[-> ES]]; [left; reflexivity|].
@@ -2161,6 +2213,10 @@ Section Scr.
         assert (DISJ : forall x, In x (top :: rest) -> ~ In x (map hid_of mhd)).
         { intros x I J. apply in_map_iff in J. destruct J as (y & E & J). destruct (c_hand_lt0 y J) as [_ K]. apply K. rewrite E. exact I. }
         core_auto.
+        - intros j M. destruct (c_recv_fresh0 j M) as (A & B & C). split; [exact A|]. split; [intros []|].
+          rewrite map_app. cbn [map hid_of fst]. rewrite map_map. cbn [hid_of fst]. rewrite map_id.
+          intros I. apply in_app_or in I. destruct I as [I|[<-|I]]; [auto|apply B; left; reflexivity|].
+          rewrite <- in_rev in I. apply B. right. exact I.
         - intros sg' I CR. apply in_app_or in I. destruct I as [I|[<-|I]].
           + apply in_or_app. right. right. rewrite map_rev, <- in_rev.
             assert (X : In (triple sg') (map triple news)) by (apply in_map, I). rewrite EN in X. exact X.
@@ -2269,7 +2325,7 @@ Section Scr.
                        m_proc := mpr'; m_hand := mhd'; m_recv := mrc'; m_fired := mfi'; m_must := None; m_err := mer';
                        m_follow := fo; m_prev := mpv' |} u' (mk_signal sg' (render_spec None) :: l') ex' hs').
              { intros fo sg'. apply Core_cons_other; [discriminate|discriminate|].
-               clear HC c_stack0 c_istack0 c_proc0 c_typed0 c_err0 c_cb_req0 c_cb_no0 c_req_lt0 c_owner0 c_recv0 c_sep0 c_quit0
+               clear HC c_stack0 c_istack0 c_proc0 c_typed0 c_err0 c_cb_req0 c_cb_no0 c_req_lt0 c_owner0 c_recv0 c_recv_fresh0 c_sep0 c_quit0
                     c_nscr0 c_stk_wf0 c_args0 c_hs0 c_p_ready0 c_p_nodup0 c_p_recv0 c_e_recv0 c_fl_cnt0 c_fl_proc0
                     c_hand_nd0 c_hand_lt0 c_ist_nd0 c_ist_lt0. core_open C1. core_auto. }
              unfold sched_redraw. destruct NE as [->|[-> NE]].
@@ -2439,6 +2495,16 @@ Section Scr.
     destruct ((j =? idx)%nat && (idx <? length (st_ih u))%nat) eqn:C;
     [apply andb_true_iff in C; destruct C as [C _]; apply Nat.eqb_eq in C; subst j|].
 
+  Lemma remove_first_removes (l : list (nat * bool * str)) idx : NoDup (map hid_of l) -> In idx (map hid_of l) ->
+    ~ In idx (map hid_of (remove_first (fun x => (fst (fst x) =? idx)%nat) l)).
+  Proof.
+    induction l as [|y r IH]; cbn; intros ND I; [destruct I|]. inversion ND as [|? ? NI ND']; subst.
+    destruct (fst (fst y) =? idx)%nat eqn:E.
+    - apply Nat.eqb_eq in E. unfold hid_of in NI. rewrite E in NI. exact NI.
+    - apply Nat.eqb_neq in E. cbn. intros [X|X]; [unfold hid_of in X; contradiction|].
+      destruct I as [I|I]; [unfold hid_of in I; contradiction|]. apply (IH ND' I X).
+  Qed.
+
   (* the world and the state after the ready signal reached handler idx; g: what happened to the handler record *)
   Lemma Core_ready (fire : bool) (g : ihandler -> ihandler) idx pv fo
         mstk mreq mty mln mist mpr mhd mrc mfi mer mfo mpv u l ex hs :
@@ -2448,13 +2514,14 @@ Section Scr.
     (forall h, ih_cb (g h) = if fire then false else ih_cb h) ->
     (fire = true -> mem idx mfi = false /\ idx < length (st_ih u)) ->
     (forall sg', In sg' l -> sg_cls sg' = CLS_READY -> sg_a sg' <> idx) ->
+    In idx (map hid_of mhd) ->
     Core {| m_stack := mstk; m_req := mreq; m_typed := mty; m_line := mln; m_istack := mist; m_proc := mpr;
             m_hand := remove_first (fun x => (fst (fst x) =? idx)%nat) mhd; m_recv := idx :: mrc;
             m_fired := if fire then idx :: mfi else mfi;
             m_must := None; m_err := mer; m_follow := fo; m_prev := Some (T_READY, pv) |}
          (upd_ih idx g u) l ex hs.
   Proof.
-    intros HC G1 G2 FI OTH. core_open HC. core_auto; rewrite ?upd_nth_length; auto.
+    intros HC G1 G2 FI OTH INH. core_open HC. core_auto; rewrite ?upd_nth_length; auto.
     - intros j. ihcases j idx u; rewrite ?G1, ?G2.
       + destruct fire; [discriminate|]. intros X. destruct (c_cb_req0 _ X) as [A B]. split; [exact A|exact B].
       + intros X. destruct (c_cb_req0 _ X) as [A B]. split; [exact A|]. destruct fire; [|exact B].
@@ -2474,6 +2541,13 @@ Section Scr.
     - intros j. ihcases j idx u.
       + intros _. rewrite Nat.eqb_refl. reflexivity.
       + intros X. specialize (c_recv0 _ X). unfold mem in c_recv0. rewrite c_recv0. apply orb_true_r.
+    - intros j M. apply orb_true_iff in M. destruct M as [M|M].
+      + apply Nat.eqb_eq in M. subst j. apply in_map_iff in INH. destruct INH as (x0 & E0 & I0).
+        destruct (c_hand_lt0 x0 I0) as [A B]. rewrite E0 in A, B. split; [exact A|split; [exact B|]].
+        apply remove_first_removes; [exact c_hand_nd0|]. apply in_map_iff. eauto.
+      + destruct (c_recv_fresh0 j M) as (A & B & C). split; [exact A|split; [exact B|]].
+        intros I. apply C. apply in_map_iff in I. destruct I as (x & E & I). apply in_map_iff. exists x. split; [exact E|].
+        eapply remove_first_sub, I.
     - intros sg' I CR. apply remove_first_in; [auto|]. cbn. apply Nat.eqb_neq. apply OTH; assumption.
     - apply remove_first_nodup, c_hand_nd0.
     - intros x I. apply c_hand_lt0. eapply remove_first_sub, I.
@@ -2511,9 +2585,14 @@ Section Scr.
       { unfold mchk, mchk_all, mchk17, mchk18, mchk06.
         cbn [m_must T_INPUT T_READY T_SHOW T_SEPARATOR T_REFUSED T_PROMPT T_GOT Nat.eqb andb].
         rewrite hand_has_in by (cbn [m_hand]; rewrite <- EA; exact INH).
+        assert (NR : mem idx mrc = false).
+        { destruct (mem idx mrc) eqn:M; [|reflexivity]. destruct (c_recv_fresh0 _ M) as (_ & _ & C). exfalso. apply C.
+          apply in_map_iff. exists (triple sg). split; [exact EA|exact INH]. }
+        unfold mchk_once. cbn [T_READY Nat.eqb nth0 nth m_recv]. rewrite NR.
         destruct HQf as [->|[q ->]]; reflexivity. }
       intros s2 H2. cbv beta iota.
       assert (OTH' : forall sg', In sg' l -> sg_cls sg' = CLS_READY -> sg_a sg' <> idx) by (rewrite <- EA; exact OTH).
+      assert (INH' : In idx (map hid_of mhd)) by (apply in_map_iff; exists (triple sg); split; [exact EA|exact INH]).
       destruct (sg_b sg) eqn:SB; cbn [negb]; rewrite ?SB in H2.
       + (* a successful result *)
         seqs. step H2. eapply a_rd; [exact H2|]. rewrite !ih_of_upd_ih. rewrite upd_ih_comp in H2.
@@ -2528,7 +2607,7 @@ Section Scr.
           unfold ready_base in H2. mnorm H2.
           apply wpS_seq. step H2. rewrite upd_ih_comp in H2.
           eapply t_process_input; [exact HS|exact H2| |exact HQf|exact OL|exact OP| |].
-          -- eapply (Core_ready true); [exact HC|reflexivity|reflexivity|intros _; split; assumption|exact OTH'].
+          -- eapply (Core_ready true); [exact HC|reflexivity|reflexivity|intros _; split; assumption|exact OTH'|exact INH'].
           -- intros ST. destruct (c_args0 ST _ _ _ RQ) as [_ A2]. exact A2.
           -- intros o sx EO. apply FIN; [exact EO|]. intros LE. lia.
         * rewrite len_upd_ih. destruct ((idx =? idx)%nat && (idx <? length (st_ih u))%nat); cbn [ih_cb set]; rewrite CB.
@@ -2537,13 +2616,13 @@ Section Scr.
           all: unfold ready_base in H2; mnorm H2.
           all: eapply a_ret; [exact H2|]; apply FIN; [|intros LE; lia].
           all: eapply EndOK_of; [exact H2| |reflexivity|unfold mchk07; cbn [m_follow]; destruct HQf as [->|[q ->]]; reflexivity].
-          all: eapply (Core_ready false); [exact HC|reflexivity|reflexivity|discriminate|exact OTH'].
+          all: eapply (Core_ready false); [exact HC|reflexivity|reflexivity|discriminate|exact OTH'|exact INH'].
       + (* a failed request: only the flags are set *)
         rewrite (muser_ready_nofire _ idx false (sg_data sg)) in H2 by (left; reflexivity).
         unfold ready_base in H2. mnorm H2.
         eapply a_ret; [exact H2|]. apply FIN; [|intros LE; lia].
         eapply EndOK_of; [exact H2| |reflexivity|unfold mchk07; cbn [m_follow]; destruct HQf as [->|[q ->]]; reflexivity].
-        eapply (Core_ready false); [exact HC|reflexivity|reflexivity|discriminate|exact OTH'].
+        eapply (Core_ready false); [exact HC|reflexivity|reflexivity|discriminate|exact OTH'|exact INH'].
     - (* the signal is for another handler: nothing happens *)
       apply Nat.eqb_neq in EA.
       eapply a_ret; [exact H1|]. apply FIN.
@@ -2946,6 +3025,7 @@ Proof.
     + intros n _. split; reflexivity.
     + intros n. unfold ih_of. cbn [st_ih]. rewrite D. cbn. discriminate.
     + intros n. unfold ih_of. cbn [st_ih]. rewrite D. cbn. discriminate.
+    + intros n X. discriminate X.
     + intros pa X. discriminate X.
     + reflexivity.
     + apply map_length.
